@@ -124,6 +124,8 @@ structure RenderReq where
   htmlBooleans : List Str := []
   /-- `content_type == 'text/xml'` as decided by `write` (none: decided by the `<?xml` prefix alone) -/
   xmlMode : Option Bool := none
+  /-- sources of other templates passed in as variables (`Val.template_ k` is `libs[k-1]`), default configuration -/
+  libs : List Str := []
 
 structure ErrorOut where
   text : Str
@@ -147,8 +149,10 @@ def errorRecords (cfg : ECfg) (body : Str) (ex : Exc) (token : Option (Nat × Na
   if ex.cls == "Exception" || ex.cls == "BaseException" || !isSubclass cfg ex.cls ["Exception"] then [] else
     -- records of the macro functions the exception passed through (innermost first), then the render function's own
     (inner ++ (match token with | some t => [t] | none => [])).map (fun (pos, len) =>
-      let (l, c) := Tok.location body { str := [], pos := pos }
-      { text := (body.drop pos).take len, line := l, col := c })
+      let _ := body
+      let (src, p) := cfg.locate pos
+      let (l, c) := Tok.location src { str := [], pos := p }
+      { text := (src.drop p).take len, line := l, col := c })
 
 /-- the compiler's pass over the program: macros in definition order, then the template body -/
 def compileCheck (tc : TCfg) (strict : Bool) (fuel : Nat) (macros : List (Str × Node)) (node : Node) : CRes Unit := do
@@ -180,9 +184,24 @@ def render (r : RenderReq) : Outcome :=
     | .error (.templateNoSrc cls msg tok) => .templateError cls msg { str := tok, pos := 0 } 0 0
     | .error (.crash cls) => if cls.startsWith "unsupported" then .unsupported cls else .crash cls
     | .ok () =>
+      -- library templates (default configuration): built and checked like the main one; their positions follow it
+      let libsR : Except String (List LibTpl × Nat) := r.libs.foldlM (fun (acc : List LibTpl × Nat) lsrc =>
+        let lxml := isXmlDoc lsrc
+        let lbody := if lxml then lsrc else normalizeNewlines lsrc
+        let lcfg : BCfg := { r.bcfg with booleanAttrs := if lxml then [] else r.htmlBooleans, escape := true }
+        match buildProgram lcfg false lbody acc.2 with
+        | .error _ => .error "a library template does not compile"
+        | .ok (lnode, lmacros) =>
+          match compileCheck tc true (8 * lbody.length + 64) lmacros lnode with
+          | .error _ => .error "a library template does not compile"
+          | .ok () => .ok (acc.1 ++ [{ src := lbody, base := acc.2, macros := lmacros, body := lnode }], acc.2 + lbody.length + 1))
+        ([], body.length + 1)
+      match libsR with
+      | .error w => .unsupported w
+      | .ok (libs, _) =>
       let cfg : ECfg := { tc := tc, tab := r.tab, pyBuiltins := r.pyBuiltins, talesExc := r.talesExc,
                           existsExc := r.existsExc, excParents := r.excParents, booleanAttrs := booleans,
-                          src := body, macros := macros }
+                          src := body, macros := macros, body := node, libs := libs }
       let env0 : Env := { own := r.vars ++ [(lit "repeat", .repeatDict), (lit "target_language", .none)],
                           root := [], rcontext := [], repeats := [], frames := [{}] }
       let init : RState := { streams := [[]], env := env0, x := {}, handled := 0 }
